@@ -307,7 +307,7 @@ package codegen
 //@   requires !isnil(p) && typeis(p._lasym, Token) && wfTables() && len(p._stack) >= 1 && validState(p._stack[len(p._stack) - 1].State)
 //@   ensures result.Token == unbox(p._lasym, Token)
 //@   let s = p._stack[len(p._stack) - 1].State
-//@   loop 0 invariant p == old(p) && end == _actions[s] + 1 + _actions[_actions[s]] && _actions[s] + 1 <= i && i <= end && (i - _actions[s] - 1) % 2 == 0 && unchangedOld(fields(fxParser)) && unchangedOld(elems(int32)) && unchangedOld(elems(_item))
+//@   loop 0 invariant p == old(p) && end == _actions[s] + 1 + _actions[_actions[s]] && _actions[s] + 1 <= i && i <= end && (i - _actions[s] - 1) % 2 == 0 && unchangedOld(fields(Self)) && unchangedOld(elems(int32)) && unchangedOld(elems(_item))
 //@   loop 0 invariant (cap(e.Expected) == 0 || fresh(e.Expected)) && unchangedOld(elems(int)) && e.Token == unbox(old(p._lasym), Token)
 //@   loop 0 decreases end - i
 //
@@ -335,11 +335,11 @@ package codegen
 //@   ensures p._lex == old(p._lex)
 //@   modifies p._la, elems(int)
 //@   let okStack = lrStack(p._stack) && p._stack[0].State == 0 && (p._qla == -1 || laOK(p._qla, p._qlasym))
-//@   loop 0 invariant p == old(p) && !isnil(p._lex) && p._lex == old(p._lex) && okStack && laOK(p._la, p._lasym) && unchangedOld(elems(_item)) && unchangedOld(elems(int32)) && unchangedOld(fields(fxParser), *p)
-//@   loop 1 invariant p == old(p) && !isnil(p._lex) && p._lex == old(p._lex) && okStack && laOK(p._la, p._lasym) && unchangedOld(elems(_item)) && unchangedOld(elems(int32)) && unchangedOld(fields(fxParser), *p)
-//@   loop 2 invariant p == old(p) && !isnil(p._lex) && p._lex == old(p._lex) && lrStack(save) && save[0].State == 0 && (p._qla == -1 || laOK(p._qla, p._qlasym)) && laOK(p._la, p._lasym) && unchangedOld(elems(_item)) && unchangedOld(elems(int32)) && unchangedOld(fields(fxParser), *p)
+//@   loop 0 invariant p == old(p) && !isnil(p._lex) && p._lex == old(p._lex) && okStack && laOK(p._la, p._lasym) && unchangedOld(elems(_item)) && unchangedOld(elems(int32)) && unchangedOld(fields(Self), *p)
+//@   loop 1 invariant p == old(p) && !isnil(p._lex) && p._lex == old(p._lex) && okStack && laOK(p._la, p._lasym) && unchangedOld(elems(_item)) && unchangedOld(elems(int32)) && unchangedOld(fields(Self), *p)
+//@   loop 2 invariant p == old(p) && !isnil(p._lex) && p._lex == old(p._lex) && lrStack(save) && save[0].State == 0 && (p._qla == -1 || laOK(p._qla, p._qlasym)) && laOK(p._la, p._lasym) && unchangedOld(elems(_item)) && unchangedOld(elems(int32)) && unchangedOld(fields(Self), *p)
 //@   loop 2 invariant base(p._stack) == base(save) && off(p._stack) == off(save) && len(p._stack) <= len(save) && cap(p._stack) == cap(save) && (forall k int :: {p._stack[k]} 0 <= k && k < len(p._stack) ==> p._stack[k] == save[k])
-//@   loop 3 invariant p == old(p) && !isnil(p._lex) && p._lex == old(p._lex) && lrStack(save) && save[0].State == 0 && (p._qla == -1 || laOK(p._qla, p._qlasym)) && laOK(p._la, p._lasym) && unchangedOld(elems(_item)) && unchangedOld(elems(int32)) && unchangedOld(fields(fxParser), *p)
+//@   loop 3 invariant p == old(p) && !isnil(p._lex) && p._lex == old(p._lex) && lrStack(save) && save[0].State == 0 && (p._qla == -1 || laOK(p._qla, p._qlasym)) && laOK(p._la, p._lasym) && unchangedOld(elems(_item)) && unchangedOld(elems(int32)) && unchangedOld(fields(Self), *p)
 //@   loop 3 invariant base(p._stack) == base(save) && off(p._stack) == off(save) && 1 <= len(p._stack) && len(p._stack) <= len(save) && cap(p._stack) == cap(save) && validState(state) && (forall k int :: {p._stack[k]} 0 <= k && k < len(p._stack) ==> p._stack[k] == save[k])
 //
 // _act dispatches to the user's action methods (per-instance obligations: the table of
@@ -360,7 +360,7 @@ package codegen
 //@   loop 0 invariant len(p._stack) >= 1 && p._stack[0].State == 0
 //@   loop 0 invariant forall k int :: {p._stack[k]} 0 <= k && k < len(p._stack) ==> validState(p._stack[k].State)
 //@   loop 0 invariant forall k int, q int32, d int :: {item(p._stack[k].State, q, d)} 0 <= k && k < len(p._stack) && item(p._stack[k].State, q, d) ==> 0 <= d && d <= k && item(p._stack[k - d].State, q, 0)
-//@   loop 0 invariant unchangedOld(elems(int32)) && unchangedOld(fields(fxParser), *p)
+//@   loop 0 invariant unchangedOld(elems(int32)) && unchangedOld(fields(Self), *p)
 //
 //@ func _LexerStateMachine.Reset
 //@   requires !isnil(l)
